@@ -438,6 +438,8 @@ class Walk:
         self.connected = False
         self.errored = False
         self.buf_len = 0
+        if not self.dead and self.rng.chance(0.5):
+            self.snap()
 
     def service(self):
         pre = self.buf_len
@@ -585,7 +587,26 @@ class Walk:
         self.tainted = True
         c = r.random()
         hostile_ack = None
-        if c < 0.2:
+        ackable = [x for x in b.pending if x["kind"] in ("suback", "unsuback", "puback", "pubrec", "pubcomp")]
+        if ackable and r.chance(0.3):
+            # an acknowledgement of the wrong type, or with the wrong number of reason codes, for an operation that IS pending
+            p = r.choice(ackable)
+            k, hp = p["kind"], p["pid"]
+            if k == "suback":
+                pkt = b.suback(hp, [0] * (p["n"] + r.choice([1, 2]))) if r.chance(0.5) else b.unsuback(hp, [0] * p["n"])
+            elif k == "unsuback":
+                pkt = b.suback(hp, [0] * p["n"]) if (r.chance(0.5) or not self.v5) else b.unsuback(hp, [0] * (p["n"] + 1))
+            elif k == "puback":
+                pkt = b.ack(r.choice(["pubrec", "pubcomp"]), hp)
+            elif k == "pubrec":
+                pkt = b.ack(r.choice(["puback", "pubcomp"]), hp)
+            else:
+                pkt = b.ack("puback", hp)
+            label = "wrong-ack-for-pending"
+            c = 2.0
+        if c >= 2.0:
+            pass
+        elif c < 0.2:
             hk, hp = r.choice(["puback", "pubrec", "pubcomp"]), r.choice([1, 2, 3, 77, 65535])
             pkt = b.ack(hk, hp)
             hostile_ack = {"kind": hk, "pid": hp, "hostile": True}
@@ -614,6 +635,8 @@ class Walk:
             pkt = bytes(r.randint(0, 255) for _ in range(r.randint(1, 12)))
             label = "random-bytes"
         self.data(pkt, "hostile:" + label)
+        if label == "wrong-ack-for-pending" and not self.dead:
+            self.snap()
         if hostile_ack:
             # by chance this may be exactly the acknowledgement a pending operation is waiting for: it was delivered
             self.notes[-1].update(ack=hostile_ack)
